@@ -453,6 +453,13 @@ func run(r *mon.Run) {
 		r.Distinct("str|" + classOf(uint64(n)))
 	}
 	if r.Shard == 0 {
+		// valid strings built from code points at the edges of UTF-8 (incl. the replacement character itself, which is valid)
+		for _, cp := range []rune{0, 0x7f, 0x80, 0x7ff, 0x800, 0xd7ff, 0xe000, 0xfeff, 0xfffc, 0xfffd, 0xfffe, 0xffff, 0x10000, 0x10ffff} {
+			s1 := "a" + string(cp) + "z"
+			judge(r, []*mitem{T(s1)}, "text-edge-codepoint", 1)
+			judge(r, []*mitem{{k: kMap, keys: []*mitem{T(s1), T("b")}, vals: [][]*mitem{{T(string(cp))}, {U(1)}}}}, "text-edge-codepoint-in-map", 1)
+		}
+		r.Distinct("text-edge-codepoints")
 		for _, bad := range [][]byte{{0xed, 0xa0, 0x80}, {0xf4, 0x90, 0x80, 0x80}, {0xc0, 0x80}, {0xe0, 0x80, 0x80}, {0x80}, {'a', 0xfe, 'b'}} {
 			judge(r, []*mitem{{k: kText, b: bad}}, "text-invalid", 1)
 		}
